@@ -273,6 +273,28 @@ def oracle_recording(strategy, scitype):
             c2 = int(y.index[end - 1])
             if isinstance(p2, pd.Series) and [int(v) for v in p2.index] != [c2 + h for h in steps]:
                 discs.append(D("forecast_index", "after moving the cutoff back: index %s expected %s" % (list(p2.index), [c2 + h for h in steps])))
+        rv = case.get("revise")
+        if rv and X is None and not discs and not back and not case.get("fh_abs") and n >= wl + 1:
+            # a batch that re-delivers the last known observations with corrected values plus one new
+            # one: the window fed at prediction time holds the corrected values (later values win)
+            k = min(rv, n - 1)
+            labs = list(range(int(y.index[-1]) - k + 1, int(y.index[-1]) + 2))
+            vals = [float(v) * 1.5 + 1000.0 for v in yv[-k:]] + [float(yv[-1]) + 7.0]
+            batch = pd.Series(vals, index=gen.int_index(labs[0], len(labs), case["index_kind"]))
+            u = sut(f.update, batch.copy(), None, False)
+            if isinstance(u, Raised):
+                return [unexpected(u, "update with a batch revising the last observations")]
+            ctx.label("revised_observations")
+            merged = np.concatenate([np.asarray(yv[: n - k], dtype=float), np.asarray(vals, dtype=float)])
+            n_before = len(doubles.LOG)
+            p3 = sut(f.predict, pred_fh)
+            if isinstance(p3, Raised):
+                return [unexpected(p3, "predict after a revising update")]
+            calls3 = [e for e in doubles.LOG[n_before:] if e[0] == "predict"]
+            want = shape_in(merged[-wl:][None, None, :])
+            if not calls3 or not arr_eq(calls3[0][3], want):
+                discs.append(D("predict_window_ignores_revised_values", "%s: first predict input %s expected %s"
+                               % (strategy, np.asarray(calls3[0][3]).tolist() if calls3 else None, want.tolist())))
         return discs
 
     return oracle
@@ -376,7 +398,7 @@ def cases(draw, strategy=None, allow_exog=True, feasible_bias=9):
         "start": draw(gen.index_start), "index_kind": draw(gen.index_kind),
         "fh_kind": draw(st.sampled_from(["list", "array", "fh", "int"])),
         "fh_at_predict": draw(st.sampled_from(["none", "same"])),
-        "scitype_arg": draw(st.sampled_from(["infer", "explicit"])), "ts_dual": draw(st.booleans()),
+        "scitype_arg": draw(st.sampled_from(["infer", "explicit"])), "ts_dual": draw(st.booleans()), "revise": draw(st.sampled_from([0, 0, 1, 2, 3])),
         "dtype": draw(st.sampled_from(["float64", "float64", "int64"])),
         "prefit": draw(st.integers(0, 4)) == 0,
         "revision": draw(st.sampled_from([None, None, 1, 2, 3])), "fh_abs": draw(st.integers(0, 3)) == 0, "wl_via_set_params": draw(st.integers(0, 3)) == 0,
